@@ -174,7 +174,7 @@ pub enum Action {
 /// yield points of nun-db at which another thread of the same process (the supervisor, the replication loop) may run
 /// before the task goes on: the task parks like a sleeper of zero length
 fn cluster_yield(site: &'static str) {
-    if site.starts_with("election_win.") {
+    if site.starts_with("election_win.") && std::env::var("NV_NO_ELECTION_WIN_YIELD").is_err() {
         cluster_sleep(0);
     }
 }
